@@ -324,6 +324,46 @@ inline Result exec_c19(const Plan& plan)
             return res;
         }
     }
+    // ---- (a3) the other documented ways to start the same visit: visit(view, visitor) without a cursor,
+    //          visit<Visitor>(view) with a visitor the library default-constructs and returns, and
+    //          visit_children(view, visitor) without a cursor (the same events minus the leading on_message);
+    //          complete and cancelled at a seeded callback
+    {
+        static const char* how[] = {"visit(view, visitor) without a cursor", "visit<Visitor>(view) with a default-constructed visitor", "visit_children(view, Visitor{}) without a cursor"};
+        const long long nstop = (long long)full.events.size();
+        for(int variant = 0; variant < 3 && !res.violation; variant++)
+        {
+            for(long long stop : {(long long)-1, nstop > 2 ? 1 + (long long)((N * 7 + (u64)variant * 13) % (u64)(nstop - 2)) : (long long)-1})
+            {
+                // reference: the cursor form with the same stopping point
+                Req q0 = rq;
+                q0.stop_at = variant == 2 && stop > 0 ? stop + 1 : stop; // visit_children skips on_message: one tick less
+                q0.arg = 0;
+                Res r0;
+                Outcome o0 = call_driver(drv, q0, r0);
+                Req q1 = rq;
+                q1.stop_at = stop;
+                q1.arg = variant == 0 ? 2 : variant == 1 ? 4 : 8;
+                Res r1;
+                Outcome o1 = call_driver(drv, q1, r1);
+                sim::stats().count("c19.visits_through_other_overloads");
+                const std::size_t skip = variant == 2 ? 1 : 0;
+                bool same = o1.kind == o0.kind && r1.events.size() + skip == r0.events.size();
+                for(std::size_t i = 0; same && i < r1.events.size(); i++)
+                {
+                    const Event &a = r1.events[i], &b = r0.events[i + skip];
+                    same = a.kind == b.kind && a.tag == b.tag && a.bits == b.bits && a.addr_off == b.addr_off && a.size == b.size;
+                }
+                if(!same)
+                {
+                    fail("overload", std::string(how[variant]) + (stop > 0 ? " stopped at callback " + std::to_string(stop) : " (complete)") + " delivered " + std::to_string(r1.events.size()) + " events (" + sim::out_name(o1.kind) + "), visit(view, cursor, visitor) " + std::to_string(r0.events.size()) + " (" + sim::out_name(o0.kind) + ")");
+                    break;
+                }
+                if(stop < 0 && nstop <= 2) break;
+            }
+        }
+        if(res.violation) return res;
+    }
     // ---- (a') visit_children called directly on group entries: the same events as the corresponding slice
     //          of the complete traversal, cursor at the end of the entry afterwards
     for(const auto& sub : vm.subs)
